@@ -478,13 +478,14 @@ func (broker *Broker) recover() (send []sts.Hashed, err error) {
 				if !broker.Conf.Logger.WasSent(
 					f.GetName(), f.GetHash(), cached.GetTime(), time.Now(),
 				) {
-					broker.Conf.Logger.Sent(&progressFile{
-						name:      cached.GetName(),
-						started:   cached.GetTime(),
-						completed: cached.GetTime(),
-						size:      cached.GetSize(),
-						hash:      cached.GetHash(),
-					})
+					// The receiver answers for the name.  The sent log is written
+					// once every byte of a version was acknowledged, before its
+					// first poll: without a record this version was never sent
+					// completely and the answer is about an earlier one.  Send it;
+					// should it be there after all, it is discarded as a duplicate
+					// and confirmed by the next poll.
+					send = append(send, cached)
+					continue
 				}
 				// We're putting it in the send Q only to get the right order
 				send = append(send, &recoverFile{
